@@ -20,6 +20,7 @@ func init() {
 		Rule: "for each of the six iterators (fasta, fastq, sam.Reader, sam.ReaderHeader, bed, newick): inputs = well-formed files, mutated near-valid files and raw bytes; the item trace (records by content, errors by presence) under bytes.Reader is compared with the trace under " +
 			"1-byte reads, a two-chunk split at every offset, every partition of short inputs, random chunk sizes and buffer-edge chunk sizes (4095..4097, 65535..65537) on large inputs, each with the last chunk delivered with and without io.EOF; " +
 			"LF vs CRLF renderings of well-formed text; File(path) on a plain and a gzip file vs Reader on the bytes, and File on a missing path; " +
+			"one line of 2^e+d bytes (e up to 24 quick / 25 thorough) under LF/CRLF, chunked delivery, cut after the line, File plain/gz; " +
 			"non-trivial = a schedule in which some chunk boundary falls strictly inside a line, or a File configuration; distinct by hash of (format, input, schedule)",
 		Assumptions: []string{"errors are compared by presence and position, not by text", "CRLF conversion is applied only to line terminators of well-formed text (fields contain no CR/LF; Newick names free of CR/LF)"},
 		MinEvents:   map[string]int64{"schedules": 5000, "boundary_inside_line": 1000, "file_plain": 60, "file_gz": 60, "file_missing": 6, "crlf_pairs": 100, "partitions": 1000},
@@ -29,6 +30,7 @@ func init() {
 			{Name: "large", QShards: 2, TShards: 6, Run: c06Large},
 			{Name: "crlf", TShards: 2, Run: c06CRLF},
 			{Name: "files", TShards: 4, Run: c06Files},
+			{Name: "huge", QShards: 6, TShards: 16, Run: c06Huge},
 		},
 	})
 }
@@ -407,5 +409,155 @@ func c06Files(c *Ctx) {
 			k.Nontrivial([]byte(f), []byte("missing"))
 		})
 		idx++
+	}
+}
+
+// hugeLineText builds a well-formed text with one line of exactly n content
+// bytes between two small records. Returns the LF text and the offset just
+// after the long line's content (before its terminator).
+func hugeLineText(r *rand.Rand, f string, n int) ([]byte, int) {
+	fill := func(alpha string, n int) []byte {
+		b := make([]byte, n)
+		for i := range b {
+			b[i] = alpha[r.IntN(len(alpha))]
+		}
+		return b
+	}
+	var x []byte
+	end := 0
+	switch f {
+	case "fasta":
+		x = append(x, ">first\nACGT\n>"...)
+		if r.IntN(2) == 0 {
+			x = append(x, fill("abcdefgh ij", n-1)...) // the name line has n bytes including '>'
+			end = len(x)
+			x = append(x, "\nACGTAC\n"...)
+		} else {
+			x = append(x, "long\n"...)
+			x = append(x, fill("ACGTN", n)...)
+			end = len(x)
+			x = append(x, '\n')
+		}
+		x = append(x, ">last\nTTGA\n"...)
+	case "fastq":
+		x = append(x, "@first\nACGT\n+\n!!!!\n@long\n"...)
+		x = append(x, fill("ACGTN", n)...)
+		x = append(x, "\n+\n"...)
+		x = append(x, fill("!#5?IJ", n)...)
+		end = len(x)
+		x = append(x, "\n@last\nTT\n+\n##\n"...)
+	case "sam", "samh":
+		x = append(x, "@HD\tVN:1.6\nfirst\t0\tchr1\t1\t30\t4M\t*\t0\t0\tACGT\t!!!!\nlong\t4\t*\t0\t0\t*\t*\t0\t0\t"...)
+		x = append(x, fill("ACGTN", n)...)
+		x = append(x, "\t*"...)
+		end = len(x)
+		x = append(x, "\nlast\t16\tchr2\t7\t0\t2M\t=\t9\t-3\tTT\t##\tNM:i:1\n"...)
+	case "bed":
+		x = append(x, "chr1\t1\t2\tfirst\nchr2\t10\t20\t"...)
+		x = append(x, fill("abcdefgh ij", n)...)
+		end = len(x)
+		x = append(x, "\nchr3\t5\t6\tlast\n"...)
+	case "newick":
+		x = append(x, "(first,b)c;\n("...)
+		x = append(x, fill("abcdefghij", n)...)
+		end = len(x)
+		x = append(x, ":1.5,x);\n(last);\n"...)
+	}
+	return x, end
+}
+
+// c06Huge: one line whose length sits on or next to a power of two far above
+// the usual buffer sizes (a reader with a line-length ceiling, or one whose
+// buffer doubles, changes behaviour exactly there): LF against CRLF, whole
+// against chunked delivery, and the stream cut right after the long line with
+// the last bytes delivered with and without io.EOF.
+func c06Huge(c *Ctx) {
+	exps := []int{20, 24}
+	deltas := []int{-2, -1, 0, 1}
+	if c.Thorough {
+		exps = []int{17, 18, 19, 20, 21, 22, 23, 24, 25}
+		deltas = []int{-3, -2, -1, 0, 1, 2}
+	}
+	idx := int64(0)
+	for _, f := range c06Formats {
+		cd := codecByName(f)
+		for _, e := range exps {
+			for _, d := range deltas {
+				c.Case(idx, func(k *K) {
+					r := k.Rand()
+					n := 1<<e + d
+					lf, end := hugeLineText(r, f, n)
+					k.Input("format", f)
+					k.Input("long_line_bytes", n)
+					k.Input("input", func() string { return describeText(lf) })
+					ref, over := collect(cd.seq(bytes.NewReader(lf)), 64)
+					if over {
+						k.Failf("unbounded", "more than 64 items from a text of a few records")
+						return
+					}
+					for _, it := range ref {
+						if it.Err {
+							k.Failf("wellformed-rejected", "%s: well-formed LF text with one line of %d bytes produced an error item: %s", f, n, traceString(ref))
+							return
+						}
+					}
+					if f != "newick" {
+						crlf := bytes.ReplaceAll(lf, []byte("\n"), []byte("\r\n"))
+						b, _ := collect(cd.seq(bytes.NewReader(crlf)), 64)
+						if !sameTrace(ref, b) {
+							k.Failf("crlf", "%s: with one line of %d bytes the CRLF rendering decodes differently:\n LF   %s\n CRLF %s", f, n, traceString(ref), traceString(b))
+							return
+						}
+						k.Count("crlf_pairs", 1)
+					}
+					for _, eofWith := range []bool{false, true} {
+						for _, sizes := range [][]int{{len(lf)}, {1 << 16}, {1<<e - 1, 3, 1 << 12}} {
+							if !compareSchedule(k, cd, lf, ref, sizes, eofWith, fmt.Sprintf("chunks %v cycled", sizes)) {
+								return
+							}
+							k.Evals(1)
+						}
+					}
+					// cut right after the long line's content: an unterminated last line
+					cut := lf[:end]
+					cref, _ := collect(cd.seq(bytes.NewReader(cut)), 64)
+					for _, eofWith := range []bool{false, true} {
+						for _, sizes := range [][]int{{len(cut)}, {1 << 16}} {
+							if !compareSchedule(k, cd, cut, cref, sizes, eofWith, fmt.Sprintf("cut after the long line, chunks %v cycled", sizes)) {
+								return
+							}
+							k.Evals(1)
+						}
+					}
+					// File on the plain and the gzip-compressed form of both texts
+					if dir, err := os.MkdirTemp("", "c06-huge-"); err == nil {
+						for vi, v := range [][]byte{lf, cut} {
+							want := ref
+							if vi == 1 {
+								want = cref
+							}
+							plain := filepath.Join(dir, fmt.Sprintf("h%d%s", vi, cd.ext))
+							if os.WriteFile(plain, v, 0o644) != nil || os.WriteFile(plain+".gz", gzipBytes(v, 1), 0o644) != nil {
+								k.Count("file_write_failed", 1)
+								continue
+							}
+							for _, p := range []string{plain, plain + ".gz"} {
+								got, over := collect(cd.file(p), 64)
+								if over || !sameTrace(got, want) {
+									k.Failf("file-huge", "%s.File(%s) on a text with one line of %d bytes (variant %d: 0 = whole, 1 = cut after the long line) differs from Reader on the same bytes:\n File   %s\n Reader %s",
+										f, filepath.Base(p), n, vi, traceString(got), traceString(want))
+								}
+								k.Count("file_huge", 1)
+							}
+						}
+						os.RemoveAll(dir)
+					}
+					k.Count("huge_line_inputs", 1)
+					k.Count("boundary_inside_line", 1)
+					k.Nontrivial([]byte(f), []byte(fmt.Sprint(n)))
+				})
+				idx++
+			}
+		}
 	}
 }
